@@ -59,6 +59,9 @@ def run(ctx):
         a, o, t = gen_valid(ctx.rng, ctx.quick, prefix_p=0.2, empty_p=0.04)
         if ctx.rng.random() < 0.12:
             a, o, t = gen_valid_signed_sum(ctx.rng)     # explicit signs against thresholds of either sign, leaves around zero
+        elif ctx.rng.random() < 0.06:
+            a, o, t = gen_valid_huge(ctx.rng)           # a threshold over a quantity far beyond 16 bits
+            ctx.tags["huge-threshold-stream"] += 1
         if ctx.rng.random() < 0.15:
             # atoms and compounds side by side under one node, their ids interleaving in sorted order (a named group between
             # two items, an item between two named groups; negated and plain), integer atoms included
